@@ -279,7 +279,22 @@ def getslice(E, obj, lo, hi, step):
     raise Unsupported("slice of %r" % (obj,))
 
 
+def _dunder(E, obj, name, args):
+    """obj[...] on an object of a repo class: dispatch to the class's own __xxx__ method (through its contract)"""
+    cf = E.reg.class_file(obj.cls)
+    if not cf:
+        return False, None
+    res = E.repo.find_method(cf, obj.cls, name)
+    if not res:
+        return False, None
+    return True, E.call_func(FuncV(res[0], res[1], res[2], obj), list(args), {})
+
+
 def setitem(E, obj, idx, v):
+    if isinstance(obj, RefV):
+        done, _r = _dunder(E, obj, "__setitem__", [idx, v])
+        if done:
+            return
     if isinstance(obj, ListV):
         n = E.llen(obj)
         z = norm_index(E, idx, n, "list index")
@@ -299,6 +314,10 @@ def setitem(E, obj, idx, v):
 
 
 def delitem(E, obj, idx):
+    if isinstance(obj, RefV):
+        done, _r = _dunder(E, obj, "__delitem__", [idx])
+        if done:
+            return
     if isinstance(obj, DictV):
         has = E.dhas(obj, idx)
         if "KeyError" in E.raises_decl or E.in_try():
@@ -643,6 +662,8 @@ def call_python(E, f, args, kwargs):
         if isinstance(args[1], str):
             return E.getattr_v(args[0], args[1])
     if f is _pyb.hasattr:
+        if isinstance(args[0], RefV) and isinstance(args[1], str):
+            return E.reg.field_type(args[0].cls, args[1]) is not None
         raise Unsupported("hasattr")
     if f is _pyb.callable:
         return isinstance(args[0], (FuncV, BoundExt, ClassV)) or callable(args[0])
